@@ -16,14 +16,15 @@ from vlib import common, tla, graphwalk, tracebatch
 PROP = "C05"
 
 
-def steps_of(g, path):
+def steps_of(g, path, rnd=None):
     out = []
     for ei in path:
         _, _, name, a = g.edges[ei]
         if name == "NewSession":
             out.append({"op": "new", "s": a[0]})
         elif name == "OpenStream":
-            out.append({"op": "open", "s": a[0]})
+            # half of the opens are reconnects: the stream is opened twice, the session keeps the newer one
+            out.append({"op": "open", "s": a[0], "reconnect": bool(rnd and rnd.random() < 0.5)})
         elif name == "CloseStream":
             out.append({"op": "close", "s": a[0]})
         elif name == "DeleteSession":
@@ -192,7 +193,7 @@ def run(tier, replay=None):
         paths = graphwalk.edge_cover_paths(g, max_len=28, rnd=rnd)
         if tier == "thorough":
             paths += graphwalk.random_walks(g, 150, 35, rnd)
-        plist = [{"id": "%s%d" % (kind[:2], n), "path": p, "steps": steps_of(g, p)} for n, p in enumerate(paths)]
+        plist = [{"id": "%s%d" % (kind[:2], n), "path": p, "steps": steps_of(g, p, rnd)} for n, p in enumerate(paths)]
         nproc = 10
         for k in range(nproc):
             part = plist[k::nproc]
@@ -220,6 +221,14 @@ def run(tier, replay=None):
                 if res.get("broken"):
                     raise common.Broken("walk %s: %s" % (p["id"], res["broken"]))
                 run_.evaluations += 1
+                if res.get("aborted"):
+                    # the walk stopped because an earlier step deviated: judge what was observed; the deviation must show there
+                    k = len(res["obs"])
+                    nviol = len(run_.violations) + len(run_.known_hit)
+                    judge(run_, kind, g, p["path"][:k], p["steps"][:k], res)
+                    if len(run_.violations) + len(run_.known_hit) == nviol:
+                        raise common.Broken("walk %s aborted (%s) although every observed step conforms" % (p["id"], res["aborted"]))
+                    continue
                 if judge(run_, kind, g, p["path"], p["steps"], res):
                     run_.nontriv([kind, p["steps"]])
                 items[kind].append((p["id"], trace_of(g, p["path"], p["steps"], res)))
@@ -235,6 +244,43 @@ def run(tier, replay=None):
             run_.diverge("kind=%s trace-rejected op=%s" % (kind, line.get("e")),
                          "TLC rejects the step log of walk %s at step %d: %s" % (tid, pos, json.dumps(line)), rps[tid])
     run_.exhaustive = True
+    # ---- bursts to a session whose stream is not being read (Burst.tla: PerSessionFIFO also when the hand-over overflows)
+    tla.sany("Burst"); tla.sany("TraceBurst")
+    b = tla.run_tlc("Burst", "Burst.cfg")
+    if not b.ok:
+        raise common.Broken("Burst violates %s" % b.violation)
+    run_.add_tlc(b)
+    b = tla.run_tlc("Burst", "Burst_bug_reorder.cfg")
+    if b.ok or b.violation != "PerSessionFIFO":
+        raise common.Broken("self-test: Burst with the overflow path should violate PerSessionFIFO")
+    run_.add_tlc(b)
+    bursts = [{"id": "burst-%s-%d" % (srvk, k), "server": srvk, "n": n, "payload": pay}
+              for srvk in ("legacy", "streamable")
+              for k, (n, pay) in enumerate([(300, 16384), (150, 65536)] + ([(600, 4096), (250, 262144)] if tier == "thorough" else []))]
+    bout = common.run_harness_json(["c05burst"], {"bursts": bursts}, timeout=600, crash_ok=True)
+    if "_crash" in bout:
+        run_.diverge("burst process-crash", "the server process crashed during a burst: %s" % bout["_crash"][:1200], {"cmd": ["c05burst"], "input": {"bursts": bursts}})
+    else:
+        bitems, brp = [], {}
+        for bi, r in zip(bursts, bout["results"]):
+            if r.get("broken"):
+                raise common.Broken("burst %s: %s" % (r["id"], r["broken"]))
+            run_.evaluations += 1
+            acc = set(r["accepted"])
+            ev = [{"e": "reset"}] + [{"e": "send", "n": i, "ok": i in acc} for i in range(1, bi["n"] + 1)]
+            ev += [{"e": "recv", "n": i} for i in r["received"]] + [{"e": "end"}]
+            bitems.append((r["id"], ev))
+            brp[r["id"]] = ({"cmd": ["c05burst"], "input": {"bursts": [bi]}, "observed": {"accepted": len(r["accepted"]), "received_head": r["received"][:40]},
+                             "spec": "Burst / TraceBurst"}, bi, r)
+            run_.nontriv(["burst", bi["server"], bi["n"], bi["payload"], len(r["accepted"]) < bi["n"]])
+        rej = tracebatch.validate(run_, "TraceBurst", "TraceBurst.cfg", bitems, max_lines=5000, max_rejections=8)
+        for tid, (pos, line) in rej.items():
+            rp, bi, r = brp[tid]
+            what = "order" if line["e"] == "recv" else "lost-or-duplicated"
+            run_.diverge("server=%s burst %s" % (bi["server"], what),
+                         "%d notifications of %d bytes to a session whose stream was not being read: %d accepted, %d received; the stream shows %s where the "
+                         "accepted order is %s (first mismatch at frame %s)" % (bi["n"], bi["payload"], len(r["accepted"]), len(r["received"]),
+                                                                               r["received"][:14], r["accepted"][:14], line.get("n")), rp)
     run_.rule = ("walks = edge cover of the Push state graph (sessions x stream open/closed x sends x server-request steps incl. "
                  "answers from the wrong session) on a Streamable-HTTP and a legacy SSE server (+ random walks, thorough); "
                  "non-trivial = walks with at least one delivered send or a completed / cancelled server request")
